@@ -157,6 +157,229 @@ theorem after_limit (n : Nat) (pre post : List (Nat × (Nat → Resp))) (hw : Wf
   rw [hl] at this
   exact this
 
+/-! ### Limited readers stacked on a limited reader -/
+
+/-- A `limitedReader` over a source that obeys the `io.Reader` contract obeys it itself
+(and never reports a negative count), whatever its state. -/
+theorem asReader_wf (inner : LR) (s : Nat → Resp) (hw : ∀ l, (s l).wf l) (l : Nat) :
+    0 ≤ (inner.asReader s l).n ∧ (inner.asReader s l).wf l := by
+  have hs := read_step inner l s hw
+  have key : 0 ≤ (inner.read l s).2.n ∧ (inner.read l s).2.n = (inner.read l s).2.data.length ∧
+      ((inner.read l s).2.data.length ≤ l) := by
+    unfold LR.read
+    by_cases h0 : inner.n = 0
+    · simp [h0]
+    · simp only [h0, if_false]
+      by_cases hneg : (s (min l inner.n)).n < 0
+      · simp [hneg]
+      · simp only [hneg, if_false]
+        rcases hw (min l inner.n) with h | ⟨hn, hle⟩
+        · exact absurd h hneg
+        · exact ⟨by omega, hn, by omega⟩
+  exact ⟨key.1, Or.inr ⟨key.2.1, key.2.2⟩⟩
+
+theorem stack_read_none (st : Stack) (plen : Nat) (s : Nat → Resp)
+    (h : (st.outer.read plen (st.inner.asReader s)).2.requested = none) :
+    st.read plen s =
+      ({ outer := (st.outer.read plen (st.inner.asReader s)).1, inner := st.inner },
+       { out := (st.outer.read plen (st.inner.asReader s)).2, inner := none }) := by
+  simp only [Stack.read, h]
+
+theorem stack_read_some (st : Stack) (plen : Nat) (s : Nat → Resp) (l : Nat)
+    (h : (st.outer.read plen (st.inner.asReader s)).2.requested = some l) :
+    st.read plen s =
+      ({ outer := (st.outer.read plen (st.inner.asReader s)).1, inner := (st.inner.read l s).1 },
+       { out := (st.outer.read plen (st.inner.asReader s)).2,
+         inner := some (st.inner.read l s).2 }) := by
+  simp only [Stack.read, h]
+
+/-- the bytes of an inner `Read` that may not have happened -/
+def optData (o : Option ReadOut) : Bytes := (o.map (·.data)).getD []
+
+/-- One `Read` on the outer reader: both limits stay, both budgets go down by exactly what
+was delivered at their level, and the outer delivers exactly the bytes the inner one
+returned. -/
+theorem stack_step (st : Stack) (plen : Nat) (s : Nat → Resp) (hw : ∀ l, (s l).wf l) :
+    (st.read plen s).1.outer.limit = st.outer.limit ∧
+    (st.read plen s).1.inner.limit = st.inner.limit ∧
+    (st.read plen s).1.outer.n + (st.read plen s).2.out.data.length = st.outer.n ∧
+    (st.read plen s).1.inner.n + (optData (st.read plen s).2.inner).length = st.inner.n ∧
+    (st.read plen s).2.out.data = optData (st.read plen s).2.inner := by
+  have hwo : ∀ l, (st.inner.asReader s l).wf l := fun l => (asReader_wf st.inner s hw l).2
+  have ho := read_step st.outer plen (st.inner.asReader s) hwo
+  cases hreq : (st.outer.read plen (st.inner.asReader s)).2.requested with
+  | none =>
+    rw [stack_read_none st plen s hreq]
+    have hd : (st.outer.read plen (st.inner.asReader s)).2.data = [] := by
+      rcases delivered_prefix st.outer plen (st.inner.asReader s) with h | ⟨l, hl, _⟩
+      · exact h
+      · rw [hreq] at hl; cases hl
+    refine ⟨ho.1, rfl, ho.2.1, by simp [optData], ?_⟩
+    simp [optData, hd]
+  | some l =>
+    rw [stack_read_some st plen s l hreq]
+    have hp := errors_pass_through st.outer plen (st.inner.asReader s) l hreq
+      (asReader_wf st.inner s hw l).1
+    have hi := read_step st.inner l s hw
+    refine ⟨ho.1, hi.1, ho.2.1, ?_, ?_⟩
+    · simpa [optData] using hi.2.1
+    · simpa [optData, LR.asReader, ReadOut.toResp] using hp.2.2
+
+/-- What the inner reader requests from the source fits in the inner budget, in the outer
+budget and in the caller's buffer — whatever the source does. -/
+theorem stack_request_le (st : Stack) (plen : Nat) (s : Nat → Resp) (io : ReadOut) (l : Nat)
+    (hi : (st.read plen s).2.inner = some io) (hreq : io.requested = some l) :
+    l ≤ st.inner.n ∧ l ≤ st.outer.n ∧ l ≤ plen := by
+  have one : ∀ (lr : LR) (p : Nat) (r : Nat → Resp) (k : Nat),
+      (lr.read p r).2.requested = some k → k ≤ lr.n ∧ k ≤ p := by
+    intro lr p r k hk
+    unfold LR.read at hk
+    by_cases h0 : lr.n = 0
+    · simp [h0] at hk
+    · simp only [h0, if_false] at hk
+      by_cases hneg : (r (min p lr.n)).n < 0
+      · simp only [hneg, if_true] at hk; simp at hk; omega
+      · simp only [hneg, if_false] at hk; simp at hk; omega
+  cases ho : (st.outer.read plen (st.inner.asReader s)).2.requested with
+  | none => rw [stack_read_none st plen s ho] at hi; cases hi
+  | some k =>
+    rw [stack_read_some st plen s k ho] at hi
+    have hio : (st.inner.read k s).2 = io := by simpa using hi
+    have h1 := one st.outer plen _ k ho
+    have h2 := one st.inner k s l (by rw [hio]; exact hreq)
+    omega
+
+theorem delivered_cons (o : ReadOut) (os : List ReadOut) :
+    delivered (o :: os) = o.data ++ delivered os := by
+  simp [delivered]
+
+theorem delivered_append (xs ys : List ReadOut) :
+    delivered (xs ++ ys) = delivered xs ++ delivered ys := by
+  simp [delivered]
+
+theorem delivered_innerOuts_cons (o : StackOut) (os : List StackOut) :
+    delivered (innerOuts (o :: os)) = optData o.inner ++ delivered (innerOuts os) := by
+  cases h : o.inner <;> simp [innerOuts, h, optData, delivered]
+
+/-- Whole histories on the outer reader: both budget invariants hold — the inner one although
+it is only driven through the outer one — and byte for byte the callers got exactly what the
+inner reader returned. -/
+theorem stack_run_budget (st : Stack) (calls : List (Nat × (Nat → Resp))) (hw : WfCalls calls) :
+    (st.run calls).1.outer.limit = st.outer.limit ∧
+    (st.run calls).1.inner.limit = st.inner.limit ∧
+    (st.run calls).1.outer.n + (delivered (outerOuts (st.run calls).2)).length = st.outer.n ∧
+    (st.run calls).1.inner.n + (delivered (innerOuts (st.run calls).2)).length = st.inner.n ∧
+    delivered (outerOuts (st.run calls).2) = delivered (innerOuts (st.run calls).2) := by
+  induction calls generalizing st with
+  | nil => simp [Stack.run, delivered, outerOuts, innerOuts]
+  | cons c rest ih =>
+    obtain ⟨plen, s⟩ := c
+    have hws : ∀ l, (s l).wf l := fun l => hw (plen, s) (List.mem_cons_self ..) l
+    have hrest : WfCalls rest := fun c hc l => hw c (List.mem_cons_of_mem _ hc) l
+    obtain ⟨s1, s2, s3, s4, s5⟩ := stack_step st plen s hws
+    obtain ⟨i1, i2, i3, i4, i5⟩ := ih (st.read plen s).1 hrest
+    simp only [Stack.run, outerOuts, List.map_cons, delivered_cons, delivered_innerOuts_cons,
+      List.length_append] at i3 i4 i5 ⊢
+    refine ⟨by rw [i1, s1], by rw [i2, s2], by omega, by omega, by rw [s5, i5]⟩
+
+/-- (a) `stack_inner_budget`: in `LimitReader(LimitReader(src, n), m)` the inner reader's
+budget invariant holds after every history of reads on the outer one: what is left of `n`
+plus what the source has delivered is `n`; so the source never delivers more than `n`. -/
+theorem stack_inner_budget (n m : Nat) (calls : List (Nat × (Nat → Resp))) (hw : WfCalls calls) :
+    let r := ({ outer := limitReader m, inner := limitReader n } : Stack).run calls
+    r.1.inner.limit = n ∧ r.1.inner.n + (delivered (innerOuts r.2)).length = n ∧
+    (delivered (innerOuts r.2)).length ≤ n := by
+  have h := stack_run_budget { outer := limitReader m, inner := limitReader n } calls hw
+  simp only [limitReader] at h ⊢
+  exact ⟨h.2.1, h.2.2.2.1, by omega⟩
+
+/-- (a) `stack_requested_le`: after any history, whatever the next `Read` on the outer reader
+makes the inner one request from the source fits in what is left of BOTH limits: delivered so
+far plus the request is at most `n` and at most `m` (and the request fits the buffer). -/
+theorem stack_requested_le (n m : Nat) (pre : List (Nat × (Nat → Resp))) (hw : WfCalls pre)
+    (plen : Nat) (s : Nat → Resp) (io : ReadOut) (l : Nat)
+    (hi : ((({ outer := limitReader m, inner := limitReader n } : Stack).run pre).1.read plen s).2.inner
+      = some io)
+    (hreq : io.requested = some l) :
+    let r := ({ outer := limitReader m, inner := limitReader n } : Stack).run pre
+    (delivered (innerOuts r.2)).length + l ≤ n ∧ (delivered (innerOuts r.2)).length + l ≤ m ∧
+    l ≤ plen := by
+  have h := stack_run_budget { outer := limitReader m, inner := limitReader n } pre hw
+  have hl := stack_request_le _ plen s io l hi hreq
+  simp only [limitReader] at h hl ⊢
+  have h5 := congrArg List.length h.2.2.2.2
+  refine ⟨by omega, by omega, hl.2.2⟩
+
+/-- (b) `stack_delivered_le_min`: `LimitReader(LimitReader(src, n), m)` never delivers more
+than `min n m` bytes, and what it delivers is byte for byte what the source handed to the
+inner reader. -/
+theorem stack_delivered_le_min (n m : Nat) (calls : List (Nat × (Nat → Resp)))
+    (hw : WfCalls calls) :
+    let r := ({ outer := limitReader m, inner := limitReader n } : Stack).run calls
+    (delivered (outerOuts r.2)).length ≤ min n m ∧
+    delivered (outerOuts r.2) = delivered (innerOuts r.2) := by
+  have h := stack_run_budget { outer := limitReader m, inner := limitReader n } calls hw
+  simp only [limitReader] at h ⊢
+  have h5 := congrArg List.length h.2.2.2.2
+  exact ⟨by omega, h.2.2.2.2⟩
+
+/-- every history of every session obeys the `io.Reader` contract -/
+def WfSessions (ss : List (Option Nat × List (Nat × (Nat → Resp)))) : Prop :=
+  ∀ x ∈ ss, WfCalls x.2
+
+/-- Any number of readers made one after the other over the same inner reader (and reads
+from it directly in between): the inner budget invariant holds at the end, every session
+through a `LimitReader(inner, m)` is counted in it, and the callers together got exactly
+the bytes the inner reader returned. -/
+theorem sessions_budget (inner : LR) (ss : List (Option Nat × List (Nat × (Nat → Resp))))
+    (hw : WfSessions ss) :
+    (sessions inner ss).1.limit = inner.limit ∧
+    (sessions inner ss).1.n + (delivered (sessions inner ss).2.2).length = inner.n ∧
+    delivered (sessions inner ss).2.1 = delivered (sessions inner ss).2.2 := by
+  induction ss generalizing inner with
+  | nil => simp [sessions, delivered]
+  | cons x rest ih =>
+    obtain ⟨om, calls⟩ := x
+    have hc : WfCalls calls := hw (om, calls) (List.mem_cons_self ..)
+    have hrest : WfSessions rest := fun x hx => hw x (List.mem_cons_of_mem _ hx)
+    cases om with
+    | none =>
+      obtain ⟨b1, b2⟩ := run_budget inner calls hc
+      obtain ⟨i1, i2, i3⟩ := ih (inner.run calls).1 hrest
+      simp only [sessions, delivered_append, List.length_append] at i2 i3 ⊢
+      refine ⟨by rw [i1, b1], by omega, by rw [i3]⟩
+    | some m =>
+      obtain ⟨_, b2, _, b4, b5⟩ :=
+        stack_run_budget { outer := limitReader m, inner := inner } calls hc
+      dsimp only at b2 b4
+      obtain ⟨i1, i2, i3⟩ := ih (Stack.run { outer := limitReader m, inner := inner } calls).1.inner hrest
+      simp only [sessions, delivered_append, List.length_append] at i2 i3 ⊢
+      refine ⟨by rw [i1, b2], by omega, by rw [i3, b5]⟩
+
+/-- (c) `sessions_delivered_le_n`: however many `LimitReader(total, m)` are made one after
+the other over the same `total = LimitReader(src, n)`, whatever their limits, buffer sizes and
+the source's behaviour, together they deliver at most `n` bytes — and the source delivers at
+most `n`. -/
+theorem sessions_delivered_le_n (n : Nat) (ss : List (Option Nat × List (Nat × (Nat → Resp))))
+    (hw : WfSessions ss) :
+    (delivered (sessions (limitReader n) ss).2.1).length ≤ n ∧
+    (delivered (sessions (limitReader n) ss).2.2).length ≤ n := by
+  obtain ⟨_, h2, h3⟩ := sessions_budget (limitReader n) ss hw
+  have := congrArg List.length h3
+  simp only [limitReader] at h2 this ⊢
+  omega
+
+/-- The harness's `C15.copy` stage 3: three `ReadAll(LimitReader(total, part))` and then
+`ReadAll(total)` — whatever sequence of reads `ReadAll` makes. -/
+theorem copy_nested_le_n (n part : Nat) (c1 c2 c3 c4 : List (Nat × (Nat → Resp)))
+    (h1 : WfCalls c1) (h2 : WfCalls c2) (h3 : WfCalls c3) (h4 : WfCalls c4) :
+    let r := sessions (limitReader n) [(some part, c1), (some part, c2), (some part, c3), (none, c4)]
+    (delivered r.2.1).length ≤ n ∧ (delivered r.2.2).length ≤ n := by
+  apply sessions_delivered_le_n
+  intro x hx
+  simp only [List.mem_cons, List.not_mem_nil, or_false] at hx
+  rcases hx with rfl | rfl | rfl | rfl <;> assumption
+
 /-! ### TruncatedWriter -/
 
 theorem tw_run_spec (w : TW) (h : w.offset ≤ w.limit) (ws : List (Bytes × Nat)) :
@@ -221,6 +444,33 @@ example : WfCalls [(4, exResp 3 0), (4, exResp 9 1)] := by
 example : ((limitReader 5).run [(4, exResp 3 0), (4, exResp 9 1), (4, exResp 9 0)]).2.map
     (fun o => (o.requested, o.n, o.err)) =
     [(some 4, 3, .nil), (some 2, 2, .under 1), (none, 0, .limit 5)] := by decide
+
+-- LimitReader(LimitReader(src, 5), 3): the outer limit cuts the request to 3, the second read
+-- is refused by the outer reader and the inner one is not called
+example : (({ outer := limitReader 3, inner := limitReader 5 } : Stack).run
+    [(4, exResp 9 0), (4, exResp 9 0)]).2.map
+    (fun o => (o.out.requested, o.out.n, o.out.err, o.inner.map (·.requested))) =
+    [(some 3, 3, .nil, some (some 3)), (none, 0, .limit 3, none)] := by decide
+
+-- LimitReader(LimitReader(src, 2), 3): the inner limit cuts the request to 2; on the next read
+-- the inner reader is called and answers with its own limit error, which passes through
+example : (({ outer := limitReader 3, inner := limitReader 2 } : Stack).run
+    [(4, exResp 9 0), (4, exResp 9 0)]).2.map
+    (fun o => (o.out.requested, o.out.n, o.out.err, o.inner.map (·.requested))) =
+    [(some 3, 2, .nil, some (some 2)), (some 1, 0, .under (RErr.limit 2).code, some none)] := by
+  decide
+
+-- three LimitReader(total, 3) over total = LimitReader(src, 5), then total itself: 3 + 2 + 0 + 0
+example : (sessions (limitReader 5)
+    [(some 3, [(4, exResp 9 0), (4, exResp 9 0)]), (some 3, [(4, exResp 9 0), (4, exResp 9 0)]),
+     (some 3, [(4, exResp 9 0)]), (none, [(4, exResp 9 0)])]).2.1.map (·.n) =
+    [3, 0, 2, 0, 0, 0] := by decide
+
+example : WfSessions [(some 3, [(4, exResp 9 0), (4, exResp 9 0)]), (none, [(4, exResp 9 0)])] := by
+  intro x hx c hc l
+  simp only [List.mem_cons, List.not_mem_nil, or_false] at hx
+  rcases hx with rfl | rfl <;> simp only [List.mem_cons, List.not_mem_nil, or_false] at hc <;>
+    (try rcases hc with rfl | rfl) <;> (try subst hc) <;> exact exResp_wf ..
 
 example : forwardedAll ((newTruncatedWriter 3).run [([1, 2], 0), ([3, 4], 5), ([6], 0)]).2 = [1, 2, 3] := by
   decide
